@@ -18,6 +18,7 @@ import PMH.Model.SetSketch
 import PMH.Model.ChaCha
 import PMH.Model.DensMinHash
 import PMH.Model.OrdMinHash
+import PMH.Model.JaccardBounds
 import Std.Data.HashMap
 /-!
 # `pmhdriver`: line protocol in front of the executable models
@@ -302,6 +303,17 @@ def stepExp : List String → String
        | .ok xs => joinSp (xs.map f64Hex)
        | .error er => errWord er)
     | _, _, _ => "bad-op"
+  -- `exp01s <lambda hex> w1 w2 …` : one sample from a SCRIPTED word stream; answer: sample bits and words consumed
+  | "exp01s" :: l :: ws => match f64OfHex l, ws.mapM u64OfHex with
+    | some l, some ws =>
+      let e := Exp01.new expOps l
+      let next : List UInt64 → Float × List UInt64 := fun st => match st with
+        | w :: r => (unif01OfU64 w, r)
+        | [] => (0.0, [])
+      (match Exp01.sample expOps e next ws with
+       | .ok (x, rest) => f64Hex x ++ " " ++ toString (ws.length - rest.length)
+       | .error er => errWord er)
+    | _, _ => "bad-op"
   | ["exp01c", l] => match f64OfHex l with
     | some l => let e := Exp01.new expOps l; joinSp [f64Hex e.c1, f64Hex e.c2, f64Hex e.c3]
     | none => "bad-op"
@@ -395,6 +407,11 @@ def stepSsk (st : DState) : List String → DState × String
   | ["dump", n] => match st.ssk[n]? with
     | some s => (st, dumpNats s.kvec ++ " | " ++ toString s.lowerK ++ " " ++ toString s.nbmin ++ " " ++ toString s.nbOverflow)
     | none => (st, "bad-op")
+  | ["bounds", b, j] => match f64OfHex b, f64OfHex j with
+    | some b, some j =>
+      let o : BOps Float := { pow := Float.pow, sqrt := Float.sqrt, max := fun x y => if x < y then y else x, min := fun x y => if y < x then y else x }
+      (st, match jaccardBoundsG o b j with | .ok (lo, hi) => f64Hex lo ++ " " ++ f64Hex hi | .error e => errWord e)
+    | _, _ => (st, "bad-op")
   | ["card", n] => match st.ssk[n]? with
     | some s => let (c, r) := s.cardinalStats (Float.log1p (s.b - 1.0)); (st, f64Hex c ++ " " ++ f64Hex r)
     | none => (st, "bad-op")
